@@ -19,6 +19,10 @@ Tie, re-established on every run:
      byte-identical.  Any difference is a violation  nondet:<str|c|h|sched|err>:<varying factor>:<site hint>.
      (err:* = exception type + message of a failing print/compile, compared modulo source positions and the counter
      suffix of repr(Sym); sched = the accept/refuse log of the replayed schedule.)
+  3b. one fixed kernel (inline + inline_window + simplify; two same-named symbols with equal coefficients in one index
+     expression) built repeatedly in one process and in fresh processes whose prior history puts the two ids on either
+     side of 10^k: the class "an ORDER depends on the absolute value of the Sym counter"
+     (key nondet:<str|c|h>:prior-history:sym-counter-digit-boundary).
   4. dedicated witnesses of the known defects, with ONE factor varying: four Memory classes / four Extern objects
      sharing one name() (keys nondet:c:prior-history:memories-same-name, ...:externs-same-name, also under
      hashseed), and a procedure needing both static helpers (nondet:c:hashseed:static-helpers).
@@ -40,7 +44,7 @@ HERE = common.VERIF / "harness"
 
 
 # ---------------------------------------------------------------------------------------------------------------- children
-def run_child(name: str, job: dict, hashseed: str, timeout: int):
+def run_child(name: str, job: dict, hashseed: str, timeout: int, mode: str = "child"):
     d = common.SCRATCH / "c18" / name
     d.mkdir(parents=True, exist_ok=True)
     job = dict(job, scratch=str(d))
@@ -49,7 +53,7 @@ def run_child(name: str, job: dict, hashseed: str, timeout: int):
     if of.exists():
         of.unlink()
     t0 = time.time()
-    rc, log = common.sh([common.PY, str(HERE / "c18_sessions.py"), "child", str(jf), str(of)], timeout=timeout,
+    rc, log = common.sh([common.PY, str(HERE / "c18_sessions.py"), mode, str(jf), str(of)], timeout=timeout,
                         env=common.exo_env(hashseed), cwd=str(d))
     if rc != 0 or not of.exists():
         return {"name": name, "error": "rc=%s %s" % (rc, log[-1500:]), "wall": time.time() - t0}
@@ -173,6 +177,136 @@ def compare(ck, stream, sessions, results, only=None):
     return ndiff
 
 
+# ---------------------------------------------------------------------------------------------------------------- Sym counter
+def boundary_runs(thorough: bool):
+    """the Sym-counter digit-boundary stream (see c18_sessions.BOUNDARY_SRC): one process with repeated builds, then
+    fresh processes whose prior history (unrelated procedures, then unrelated Syms) puts the two same-named symbols
+    of the kernel on either side of 10^k"""
+    pows = [2, 3, 4, 5, 6] + ([7] if thorough else [])
+    builds = [{"kind": "natural"}]
+    for k in pows:
+        builds += [{"kind": "straddle", "pow": k}, {"kind": "inside", "pow": k}]
+    first = run_child("bnd_inproc", {"builds": builds}, "0", 600, mode="boundary")
+    runs = [first]
+    if "error" in first:
+        return runs
+    offs = [b["offsets"] for b in first["builds"] if "offsets" in b]
+    if not offs:
+        return runs
+    off = offs[0]  # offsets of the FIRST build of a process
+    fresh = [("natural", 0, [{"kind": "natural"}]), ("s1", 0, [{"kind": "straddle", "pow": 1}]),
+             ("s2", 0, [{"kind": "straddle", "pow": 2}]), ("s3", 0, [{"kind": "straddle", "pow": 3}]),
+             ("i3", 0, [{"kind": "inside", "pow": 3}]), ("s4_procs20", 20, [{"kind": "straddle", "pow": 4}]),
+             ("i4_procs20", 20, [{"kind": "inside", "pow": 4}]), ("s5_procs40", 40, [{"kind": "straddle", "pow": 5}])]
+    if thorough:
+        fresh += [("s6_procs100", 100, [{"kind": "straddle", "pow": 6}]), ("s3_procs5", 5, [{"kind": "straddle", "pow": 3}])]
+    with ThreadPoolExecutor(max_workers=4) as ex:
+        futs = [ex.submit(run_child, "bnd_fresh_" + nm, {"builds": b, "offsets": off, "pre_procs": pp}, str(i % 3), 600, "boundary")
+                for i, (nm, pp, b) in enumerate(fresh)]
+        runs += [f.result() for f in futs]
+    return runs
+
+
+def boundary_compare(ck, runs):
+    rows = []
+    for r in runs:
+        if "error" in r:
+            ck.broken_obligation("boundary:child:" + r["name"], r["error"][-500:])
+            continue
+        for n, b in enumerate(r["builds"]):
+            if "out" not in b:
+                continue
+            ids = b.get("ids", [])
+            rows.append({"process": r["name"], "build": n, "spec": b["spec"], "counter_at_start": b["start"], "ids_of_i": ids,
+                         "straddles": len(ids) >= 2 and len(str(ids[0])) != len(str(ids[-1])), "out": b["out"],
+                         "trace": b.get("_trace")})
+    for row in rows:
+        ck.case("sym-counter-boundary", (row["process"], row["build"]), True,
+                {k: row[k] for k in ("process", "spec", "counter_at_start", "ids_of_i", "straddles")},
+                tag=("straddle" if row["straddles"] else "inside") + (":fresh" if "fresh" in row["process"] else ":same-process"))
+    nstr = sum(1 for r in rows if r["straddles"])
+    nin = sum(1 for r in rows if not r["straddles"])
+    errs = [r for r in rows if "err:session" in r["out"]]
+    if errs:
+        ck.broken_obligation("boundary:kernel-error", "%s %s" % (errs[0]["out"]["err:session"][:300], (errs[0]["trace"] or "")[-300:]))
+    if nstr < 4 or nin < 3 or not any(r["straddles"] and "fresh" in r["process"] for r in rows):
+        ck.broken_obligation("boundary:ineffective", "only %d builds straddle a digit boundary of the Sym counter, %d do not "
+                                                     "(the stream cannot tell a counter-dependent order)" % (nstr, nin))
+    ck.cov["sym_counter_boundary"] = {"builds": len(rows), "straddling_a_digit_boundary": nstr, "inside_one_digit_count": nin,
+                                      "fresh_processes": len({r["process"] for r in rows if "fresh" in r["process"]}),
+                                      "ids": [[r["process"], r["ids_of_i"]] for r in rows]}
+    keys = sorted({k for r in rows for k in r["out"] if not k.startswith("_")})
+    differs = False
+    for k in keys:
+        groups = collections.OrderedDict()
+        for r in rows:
+            groups.setdefault(r["out"].get(k, "<missing>"), []).append(r)
+        if len(groups) <= 1:
+            continue
+        differs = True
+        reps = list(groups)
+        what = k.split(":")[0]
+        key = "nondet:%s:prior-history:sym-counter-digit-boundary" % what
+        diff = "\n".join(list(difflib.unified_diff(reps[0].splitlines(), reps[1].splitlines(),
+                                                   "%s build %d" % (groups[reps[0]][0]["process"], groups[reps[0]][0]["build"]),
+                                                   "%s build %d" % (groups[reps[1]][0]["process"], groups[reps[1]][0]["build"]),
+                                                   lineterm="", n=2))[:60])
+        ck.log("DIFFERENCE %s: output %s of the boundary kernel has %d distinct texts over %d builds" % (key, k, len(groups), len(rows)))
+        ck.violation(key, {
+            "kernel": S.HEADER + S.BOUNDARY_SRC, "output": k,
+            "how": "harness/c18_sessions.py boundary <job> <out>: before a build, unrelated procedures and then unrelated "
+                   "Syms are created until the process-global counter reaches counter_at_start; ids_of_i are the ids of the "
+                   "caller's loop variable i and of the inlined callee's i, which meet in one index expression",
+            "builds_by_output": [[{kk: r[kk] for kk in ("process", "build", "spec", "counter_at_start", "ids_of_i", "straddles")}
+                                  for r in g] for g in groups.values()],
+            "diff": diff, "output_a": reps[0][:4000], "output_b": reps[1][:4000],
+        }, "%s of one fixed kernel (inline, inline_window, simplify) depends on how many symbols were created earlier in the "
+           "process: it changes when the ids of two same-named symbols straddle a power of ten" % k)
+    if not differs:
+        for _ in rows:
+            ck.corr_agree("sym-counter-boundary")
+
+
+MODEL_FILES = ["ModelSites", "Model", "ModelCheck", "ProofsSort", "ProofsEmit", "ProofsSym", "ProofsNames"]
+
+
+def build_without_sites(ck):
+    """the site scan failed, so Gen_Sites.v does not exist: compile only the files that do not depend on it (the
+    correspondence needs ModelCheck.vo) and say plainly that the property theorems were not re-checked"""
+    d = common.COQ / ENGINE
+    ck.forbid_scan(ENGINE)
+    ok = True
+    rebuild = False
+    for stem in MODEL_FILES:
+        v, vo = d / (stem + ".v"), d / (stem + ".vo")
+        if not rebuild and vo.exists() and vo.stat().st_mtime >= v.stat().st_mtime:
+            continue
+        rebuild = True  # everything after a recompiled file is recompiled too
+        rc, out = common.sh("timeout 600 coqc -Q . Determ %s.v" % stem, cwd=str(d), timeout=650)
+        if rc != 0:
+            ok = False
+            ck.broken_obligation("coq-build:%s:%s.v" % (ENGINE, stem), out[-500:])
+            break
+    for suf in (".vo", ".glob", ".vok", ".vos"):  # never leave a Props_C18.vo of an older scan behind
+        for stem in ("Props_C18", "ProofsSites", "Gen_Sites"):
+            q = d / (stem + suf)
+            if q.exists():
+                q.unlink()
+    names = re.findall(r"^\s*(?:Theorem|Corollary)\s+([A-Za-z0-9_']+)", (d / "Props_C18.v").read_text(), flags=re.M)
+    note = ("; coq/Determ/Gen_Sites.v was therefore not generated: the %d theorems of Props_C18.v (which import it) were "
+            "NOT re-checked in this run -- this is the only broken obligation, the theorems themselves are not known to fail; "
+            "the model files %s were compiled and the runtime streams ran" % (len(names), ", ".join(MODEL_FILES)))
+    for b in ck.broken:
+        if b["name"] == "translator:" + ENGINE:
+            b["detail"] = (b["detail"] or "")[-900:] + note
+    for o in ck.obligations:
+        if o["name"] == "translator:" + ENGINE:
+            o["detail"] = (o["detail"] or "")[-900:] + note
+    ck.cov["not_rechecked"] = ["Props_C18." + n for n in names]
+    ck.log("site scan failed: Props_C18.v not re-checked (%d theorems); model files built: %s" % (len(names), ok))
+    return ok
+
+
 # ---------------------------------------------------------------------------------------------------------------- run
 def run(ck: common.Check):
     t_start = time.time()
@@ -202,6 +336,8 @@ def run(ck: common.Check):
     base_var = {"hs": "0", "pre_name": "none", "pre": {}, "gc": "on", "layout": 0, "pre_k": 0}
     f_rec = pool.submit(run_child, "recorder", {"variant": base_var, "sessions": gen, "record": True}, "0", ck.n(300, 1200))
 
+    f_bnd = pool.submit(boundary_runs, ck.thorough)
+
     # dedicated witnesses of the known defects: ONE factor varies
     hs_w = ["0", "1", "2", "3", "4", "5", "6", "7"] if not quick else ["0", "1", "2", "3", "5", "6"]
     prek_w = list(range(0, 16)) if not quick else [0, 1, 2, 3, 4, 5, 6, 7, 9, 12]
@@ -215,7 +351,10 @@ def run(ck: common.Check):
 
     # ---------------------------------------------------------------- 1. site scan + proofs (main thread)
     ok_gen = ck.gen(ENGINE)
-    ok_build = ck.coq_build(ENGINE, timeout=900, jobs=8)
+    if ok_gen:
+        ok_build = ck.coq_build(ENGINE, timeout=900, jobs=8)
+    else:  # one broken obligation (the translator), not sixteen "does not compile"
+        ok_build = build_without_sites(ck)
     ck.log("site scan + coq build: %.1fs (scan ok=%s, build ok=%s)" % (time.time() - t_start, ok_gen, ok_build))
     try:
         tbl = json.loads((common.COQ / ENGINE / "sites_reviewed.json").read_text())
@@ -341,6 +480,9 @@ def run(ck: common.Check):
         "variants": len(variants), "hash_seeds": hs_list, "prior_histories": [l[0] for l in levels],
         "evaluations": len(sessions) * len(okr), "differences": nd,
     }
+
+    # ---------------------------------------------------------------- 3b. Sym-counter digit boundaries
+    boundary_compare(ck, f_bnd.result())
 
     # ---------------------------------------------------------------- 4. witnesses of the known defects
     wres = {"hashseed": [], "prior-history": []}
